@@ -329,3 +329,172 @@ Theorem C13_second_round_examples :
    (forall t, ~ In 0 (tholding (gett stC t))) /\ (forall t fr, In fr (tframes stC t) -> False)).
 Proof. exact (conj stB_wake_in_flight (conj stB_progress stC_quiescent)). Qed.
 Print Assumptions C13_second_round_examples.
+
+(* ====================================================================================
+   Third round (Sched/LockProgress.v): the liveness half on the FIFO loops - "if holders
+   eventually release, every acquirer that is not cancelled eventually gets the lock".
+   Setting: the list ready queue (`init_st false ..`: stock loop / scheduling loops), a
+   reachable state [s], and from there a QUIET run: only AStep actions (no more cancels,
+   throws, spawns from the environment), each of which
+     - satisfies the C13 side condition [run_one_ok] (no set_result on a lock-waiter future),
+     - executes no positional scheduling [run_one_np]: no OSleepInsert / OTaskSwitch /
+       OTaskReinsert / OCallPos / OTaskThrow / OTaskInterrupt / OInterruptor call, no
+       create_task_descend, no eager() start, no HReinsert callback, no task_timeout
+       interruptor frame resumed (these take an entry out of the middle of the ready queue or
+       insert one at a position; under this condition the queue is FIFO - derived, not assumed),
+   and in every state passed no task future has been completed from outside
+   ([no_external_completion], the model artefact of the second round).  [quiet n s] says this of
+   the next n steps; [steps n s] = n AStep actions.  These are the property's own conditions
+   ("after faults stop", FIFO loop); nothing is claimed for the priority loop.
+   [inflight s l f t i]: waiter future f is queued on l and done, task t is suspended in
+   acquire()'s `await f` (InFut f :: InAcquireP l f ..), and the handle at position i of the
+   ready queue is t's. *)
+From Asynkit Require Import Sched.LockProgress.
+
+(* 1. FIFO.  A step that executes no positional scheduling pops the head of the list queue and
+   only appends; hence along a run of such steps the handle at position i is popped by exactly
+   the (i+1)-th step, which runs the callback the handle had at the start (the handle table
+   only grows; cancellation only sets a flag) unless it was cancelled meanwhile. *)
+Theorem C13_handle_runs_within :
+  (forall s q, ready s = RList q -> run_one_np s ->
+     exists app, ready (do_action s AStep) = RList (tl q ++ app)) /\
+  (forall s q i, ready s = RList q -> i < length q -> nth i q 0 < length (handles s) -> run_np i s ->
+     exists rest, ready (steps i s) = RList (nth i q 0 :: rest) /\
+       do_action (steps i s) AStep =
+         (let s1 := (steps i s) <| ready := RList rest |> in
+          if hcancelled (geth s1 (nth i q 0)) then s1
+          else run_callback (hcb (geth s (nth i q 0))) s1)).
+Proof. split; [exact run_one_fifo|exact handle_runs_within]. Qed.
+Print Assumptions C13_handle_runs_within.
+
+(* 2a. A free lock with waiters is served.  In a reachable state where PriorityLock l is free
+   with a non-empty waiter queue, some queued waiter f is in flight at a position
+   i < len(ready); during a quiet run its entry stays queued for i steps, after i steps its
+   task's handle is at the head, and the (i+1)-th step - the Task.__step of that waiter, see
+   C13_waiter_step - removes the entry: within len(ready) steps the number of the entries that
+   were queued strictly decreases. *)
+Theorem C13_free_lock_is_taken :
+  forall factor draws lks cds nev acts,
+    let s0 := init_st false factor draws lks cds nev in
+    run_ok s0 acts -> PartitionRun.actions_ok s0 acts ->
+    let s := fold_left do_action acts s0 in
+    quiet (rq_len (ready s)) s ->
+    forall l, lkind_ (getl s l) = LPrio -> llocked (getl s l) = false ->
+      pq_objs (lpq (getl s l)) <> [] ->
+    exists f t i,
+      inflight s l f t i /\ i < rq_len (ready s) /\
+      (forall j, j <= i -> In f (pq_objs (lpq (getl (steps j s) l)))) /\
+      inflight (steps i s) l f t 0 /\
+      ~ In f (pq_objs (lpq (getl (steps (S i) s) l))).
+Proof.
+  intros factor draws lks cds nev acts s0 H1 H2 s Hq l Hk Hl Hne.
+  apply (free_lock_taken s l (R_reach factor draws lks cds nev acts H1 H2) Hq Hk Hl Hne).
+Qed.
+Print Assumptions C13_free_lock_is_taken.
+
+(* 2b. What that step does.  Task.__step of a task t suspended in acquire()'s `await f` (f done),
+   in any state satisfying the invariants, is: bookkeeping [step_pre], the reply [rep] of
+   `await f` [infut_reply], the code after it [acquire_p_finish] giving state s4 and reply r,
+   then the rest of the task's code [step_post].  Always: f is no longer queued in s4.
+   - rep is a value exactly when f holds a result and no exception is delivered (the task was
+     not cancelled / thrown into meanwhile); then t TAKES THE LOCK: acquire() returns True,
+     lowner = Some t, locked (C13_take_lock_only_when_free);
+   - otherwise (cancelled or interrupted waiter) the exception propagates, the finally clause
+     has removed the entry, the lock record is as before, and if the lock is free and still
+     has waiters one of them is done: the wake-up has been PASSED ON. *)
+Theorem C13_waiter_step :
+  forall t exc s l f had rest k,
+    Inv s -> WF4 s -> t < length (tasks s) -> tdone s t = false -> fdone s f = true ->
+    tcont_ (gett s t) = TSusp (InFut f :: InAcquireP l f had :: rest) k ->
+    let s3 := fst (infut_reply (step_pre s t) f (step_inp s t exc)) in
+    let rep := snd (infut_reply (step_pre s t) f (step_inp s t exc)) in
+    let s4 := fst (acquire_p_finish s3 t l f had rep) in
+    let r := snd (acquire_p_finish s3 t l f had rep) in
+    step_task t exc s = step_post t rest k r s4 /\
+    Inv s3 /\ locks s3 = locks s /\
+    ~ In f (objs s4 l) /\
+    (forall v, fstate_ (getf s f) = FResult v -> (exists v0, step_inp s t exc = RVal v0) -> rep = RVal v) /\
+    (forall v, rep = RVal v ->
+       fstate_ (getf s f) = FResult v /\ r = RVal 1 /\
+       lowner (getl s4 l) = Some t /\ llocked (getl s4 l) = true) /\
+    (forall e, rep = RExc e ->
+       r = RExc e /\ lowner (getl s4 l) = lowner (getl s l) /\ llocked (getl s4 l) = llocked (getl s l) /\
+       (llocked (getl s l) = false -> objs s4 l <> [] -> exists g, In g (objs s4 l) /\ fdone s4 g = true)).
+Proof. exact step_detail. Qed.
+Print Assumptions C13_waiter_step.
+
+(* 2c. Iterating the measure.  If moreover no new waiter joins lock l during the run ([nonew]:
+   the waiter set only shrinks - a fixed set of contenders) and the ready queue never holds more
+   than M handles ([rbound]), then within (number of queued entries) * M quiet steps a state is
+   reached in which the lock is owned (locked) or has no waiters. *)
+Theorem C13_lock_eventually_owned_or_queue_empty :
+  forall factor draws lks cds nev acts,
+    let s0 := init_st false factor draws lks cds nev in
+    run_ok s0 acts -> PartitionRun.actions_ok s0 acts ->
+    let s := fold_left do_action acts s0 in
+    forall l M, lkind_ (getl s l) = LPrio ->
+    let B := length (pq_objs (lpq (getl s l))) * M in
+    quiet B s ->
+    (forall k, k < B -> incl (pq_objs (lpq (getl (steps (S k) s) l))) (pq_objs (lpq (getl (steps k s) l)))) ->
+    (forall k, k <= B -> rq_len (ready (steps k s)) <= M) ->
+    exists n, n <= B /\
+      (llocked (getl (steps n s) l) = true \/ pq_objs (lpq (getl (steps n s) l)) = []).
+Proof.
+  intros factor draws lks cds nev acts s0 H1 H2 s l M Hk B Hq Hn Hb.
+  apply (lock_eventually M l (length (objs s l)) s (le_n _)
+           (R_reach factor draws lks cds nev acts H1 H2) Hk Hq Hn Hb).
+Qed.
+Print Assumptions C13_lock_eventually_owned_or_queue_empty.
+
+(* 3. One round of "every acquirer is served": a waiter woken with the result (release() or a
+   leaving waiter's finally clause called _wake_up_first) whose wake-up handle HWakeup t f sits at
+   position i of the ready queue keeps its entry for i quiet steps and is served by exactly the
+   (i+1)-th step - it becomes the owner before its code continues - unless its task is cancelled
+   in the meantime (_must_cancel set at that moment; then C13_waiter_step's second case applies
+   and the wake-up is passed on).  The induction over rounds ("holders eventually release", and
+   the priority order deciding who is woken next) is NOT done. *)
+Theorem C13_every_acquirer_served_one_round :
+  forall factor draws lks cds nev acts,
+    let s0 := init_st false factor draws lks cds nev in
+    run_ok s0 acts -> PartitionRun.actions_ok s0 acts ->
+    let s := fold_left do_action acts s0 in
+    forall i l f t v,
+    quiet (S i) s -> inflight s l f t i -> fstate_ (getf s f) = FResult v ->
+    (forall q, ready s = RList q -> hcb (geth s (nth i q 0)) = HWakeup t f) ->
+    tmustc (gett (steps i s) t) = false ->
+    exists had rest k h q,
+      ready (steps i s) = RList (h :: q) /\
+      tcont_ (gett (steps i s) t) = TSusp (InFut f :: InAcquireP l f had :: rest) k /\
+      (forall j, j <= i -> In f (objs (steps j s) l)) /\
+      let s1 := step_pre ((steps i s) <| ready := RList q |>) t in
+      let s4 := fst (acquire_p_finish s1 t l f had (RVal v)) in
+      steps (S i) s = step_post t rest k (RVal 1) s4 /\
+      lowner (getl s4 l) = Some t /\ llocked (getl s4 l) = true /\ ~ In f (objs s4 l).
+Proof.
+  intros factor draws lks cds nev acts s0 H1 H2 s i l f t v Hq Hfl Hs Hcb Hm.
+  apply (woken_waiter_served i s l f t v (R_reach factor draws lks cds nev acts H1 H2) Hq Hfl Hs Hcb Hm).
+Qed.
+Print Assumptions C13_every_acquirer_served_one_round.
+
+(* Example (vm_compute from init_st, list loop): holder H and three contenders W1 (priority 1),
+   W2 (5), W3 (7); H releases and wakes the head W1, which is then cancelled before it runs.
+   In [ex_s] the lock is free with queue [4;5;6] and W1's wake-up in flight at position 0.
+   Step 1: W1's acquire() raises CancelledError, its finally clause removes entry 4 and wakes W2
+   (lock still free: passed on).  Step 2: W2 owns the lock - within the bound 3 * 1.  Then W3;
+   at the end everybody is served or cancelled and the lock is clean. *)
+Theorem C13_third_round_example :
+  llocked (getl ex_s 0) = false /\ objs ex_s 0 = [4; 5; 6] /\
+  map (fun f => fstate_ (getf ex_s f)) [4; 5; 6] = [FResult 1; FPending; FPending] /\
+  tmustc (gett ex_s 1) = true /\ ready ex_s = RList [6] /\ hcb (geth ex_s 6) = HWakeup 1 4 /\
+  inflight ex_s 0 4 1 0 /\
+  (exists f n, In f (objs ex_s 0) /\ 1 <= n <= rq_len (ready ex_s) /\ ~ In f (objs (steps n ex_s) 0)) /\
+  objs (steps 1 ex_s) 0 = [5; 6] /\ llocked (getl (steps 1 ex_s) 0) = false /\
+  fstate_ (getf (steps 1 ex_s) 5) = FResult 1 /\ fstate_ (getf (steps 1 ex_s) (tfut (gett ex_s 1))) = FCancelled /\
+  (exists n, n <= 3 * 1 /\ (llocked (getl (steps n ex_s) 0) = true \/ objs (steps n ex_s) 0 = [])) /\
+  lowner (getl (steps 2 ex_s) 0) = Some 2 /\
+  lowner (getl (steps 4 ex_s) 0) = Some 3 /\
+  map (fun t => fstate_ (getf (steps 6 ex_s) (tfut t))) (tasks (steps 6 ex_s)) =
+    [FResult 0; FCancelled; FResult 0; FResult 0] /\
+  objs (steps 6 ex_s) 0 = [] /\ llocked (getl (steps 6 ex_s) 0) = false.
+Proof. exact ex_progress. Qed.
+Print Assumptions C13_third_round_example.
